@@ -57,10 +57,33 @@ Proof.
 Qed.
 
 (* ---------- steps ---------- *)
-Lemma step_master : forall c s now s', step c s 0 now = Some s' -> master_step c s = Some s'.
+(* [step0]: the steps of the basic locking discipline (the master releases and
+   re-acquires the condition variable between two passes).  The full [step] adds
+   one move, [master_step_alt], which is shown below ([alt_three]) to be a
+   shortcut for three basic steps; every invariant is proved for [step0] and
+   lifted ([lift_step]). *)
+Definition step0 (c : cfg) (s : state) (tid : nat) (now : list nat) : option state :=
+  match tid with
+  | O => match now with [] => master_step c s | _ => None end
+  | S w =>
+      match wp s w, now with
+      | WGet, _ | WStart _ _, _ => worker_step c s w now
+      | _, [] => worker_step c s w now
+      | _, _ => None
+      end
+  end.
+
+Lemma step_master : forall c s now s', step0 c s 0 now = Some s' -> master_step c s = Some s'.
 Proof. intros c s now s' H; simpl in H; destruct now; [auto|discriminate]. Qed.
-Lemma step_worker : forall c s w now s', step c s (S w) now = Some s' -> worker_step c s w now = Some s'.
+Lemma step_worker : forall c s w now s', step0 c s (S w) now = Some s' -> worker_step c s w now = Some s'.
 Proof. intros c s w now s' H; simpl in H. destruct (wp s w); destruct now; try discriminate; auto. Qed.
+
+Lemma step_split : forall c s tid now s', step c s tid now = Some s' ->
+  step0 c s tid now = Some s' \/ (tid = 0 /\ master_step_alt c s = Some s').
+Proof.
+  intros c s [|w] now s' H; [|left; exact H].
+  simpl in H. destruct now as [|x [|y r]]; [left; exact H|right; auto|discriminate].
+Qed.
 
 Ltac dmatch H :=
   repeat (match type of H with
@@ -120,7 +143,7 @@ Proof.
 Qed.
 
 Lemma spawn_inv_step : forall c s tid now s',
-  spawn_inv c s -> step c s tid now = Some s' -> spawn_inv c s'.
+  spawn_inv c s -> step0 c s tid now = Some s' -> spawn_inv c s'.
 Proof.
   intros c s [|w] now s' I H.
   - apply step_master in H. unfold spawn_inv in *. minv H; rewrite ?Emp in I; auto;
@@ -173,7 +196,7 @@ Proof.
 Qed.
 
 Lemma shape_inv_step : forall c s tid now s',
-  shape_inv s -> step c s tid now = Some s' -> shape_inv s'.
+  shape_inv s -> step0 c s tid now = Some s' -> shape_inv s'.
 Proof.
   intros c s [|w] now s' I H.
   - apply step_master in H. unfold shape_inv in I.
@@ -286,7 +309,7 @@ Proof.
 Qed.
 
 Lemma count_inv_step : forall c s tid now s',
-  spawn_inv c s -> count_inv c s -> step c s tid now = Some s' -> count_inv c s'.
+  spawn_inv c s -> count_inv c s -> step0 c s tid now = Some s' -> count_inv c s'.
 Proof.
   intros c s [|w] now s' SI I H.
   - apply step_master in H. unfold count_inv in I. unfold spawn_inv in SI.
@@ -376,7 +399,7 @@ Ltac upd_split w0 :=
     destruct (upd_cases _ f k p w0) as [[-> ->]|[? ->]] end.
 
 Lemma owner_inv_step : forall c s tid now s',
-  spawn_inv c s -> owner_inv s -> step c s tid now = Some s' -> owner_inv s'.
+  spawn_inv c s -> owner_inv s -> step0 c s tid now = Some s' -> owner_inv s'.
 Proof.
   intros c s [|w] now s' SI [IM IW] H.
   - apply step_master in H. unfold owner_inv.
@@ -418,7 +441,7 @@ Proof.
 Qed.
 
 Lemma flags_inv_step : forall c s tid now s',
-  flags_inv s -> step c s tid now = Some s' -> flags_inv s'.
+  flags_inv s -> step0 c s tid now = Some s' -> flags_inv s'.
 Proof.
   intros c s [|w] now s' I H.
   - apply step_master in H. unfold flags_inv in *.
@@ -454,7 +477,7 @@ Proof.
 Qed.
 
 Lemma raised_inv_step : forall c s tid now s',
-  raised_inv c s -> step c s tid now = Some s' -> raised_inv c s'.
+  raised_inv c s -> step0 c s tid now = Some s' -> raised_inv c s'.
 Proof.
   intros c s [|w] now s' I H.
   - apply step_master in H. pose proof (master_step_not_raised _ _ _ H).
@@ -479,7 +502,7 @@ Proof.
                        |apply owner_inv_init|apply flags_inv_init|apply raised_inv_init].
 Qed.
 
-Lemma cinv_step : forall c s tid now s', cinv c s -> step c s tid now = Some s' -> cinv c s'.
+Lemma cinv_step0 : forall c s tid now s', cinv c s -> step0 c s tid now = Some s' -> cinv c s'.
 Proof.
   intros c s tid now s' [] H. constructor.
   - eapply spawn_inv_step; eauto.
@@ -489,6 +512,40 @@ Proof.
   - eapply flags_inv_step; eauto.
   - eapply raised_inv_step; eauto.
 Qed.
+
+Lemma step0_step : forall c s tid now s', step0 c s tid now = Some s' -> step c s tid now = Some s'.
+Proof.
+  intros c s [|w] now s' H; [|exact H]. simpl in *. destruct now; [exact H|discriminate].
+Qed.
+
+(* the additional move of the master is a shortcut for release, acquire, decide *)
+Lemma alt_three : forall c s s', cv_owner s = Some 0 -> master_step_alt c s = Some s' ->
+  exists s1 s2, step0 c s 0 [] = Some s1 /\ step0 c s1 0 [] = Some s2 /\ step0 c s2 0 [] = Some s'.
+Proof.
+  intros c s s' O H. unfold master_step_alt in H.
+  destruct (mp s) as [| | | | |acc| | | | | | |] eqn:Emp; try discriminate H.
+  destruct acc as [|x acc]; [discriminate H|].
+  eexists. eexists. split; [simpl; unfold master_step; rewrite Emp; reflexivity|].
+  split; [simpl; unfold master_step; simpl; reflexivity|].
+  simpl. rewrite <- H. unfold set_mp. rewrite O. reflexivity.
+Qed.
+
+Lemma lift_step : forall c (P : state -> Prop),
+  (forall s, P s -> owner_inv s) ->
+  (forall s tid now s', P s -> step0 c s tid now = Some s' -> P s') ->
+  forall s tid now s', P s -> step c s tid now = Some s' -> P s'.
+Proof.
+  intros c P PO P0 s tid now s' I H.
+  destruct (step_split _ _ _ _ _ H) as [H0|[-> HA]]; [eapply P0; eauto|].
+  assert (O : cv_owner s = Some 0).
+  { destruct (PO s I) as [OM _]. apply OM. unfold master_step_alt in HA.
+    destruct (mp s); try discriminate HA. reflexivity. }
+  destruct (alt_three _ _ _ O HA) as (s1 & s2 & H1 & H2 & H3).
+  eapply P0; [|exact H3]. eapply P0; [|exact H2]. eapply P0; [|exact H1]. exact I.
+Qed.
+
+Lemma cinv_step : forall c s tid now s', cinv c s -> step c s tid now = Some s' -> cinv c s'.
+Proof. intros c. apply (lift_step c (cinv c)); [intros s I; apply I|apply cinv_step0]. Qed.
 
 (* induction principle over schedules, used by every invariant *)
 Lemma run_app : forall c sched1 sched2 s,
